@@ -57,6 +57,19 @@ func vpPair(alg string, id int) vpKeyPair {
 // vpSigKey: the private JWK with this algorithm and identity (same id = same key pair).
 func vpSigKey(alg string, id int) jwk.Key { return vpPair(alg, id).priv }
 
+// vpSigKeyKid: the private JWK with this algorithm and identity, carrying the
+// given key id (two different keys may carry the same id, e.g. after a rotation).
+func vpSigKeyKid(alg string, id int, kid string) jwk.Key {
+	k, err := vpPair(alg, id).priv.Clone()
+	if err != nil {
+		vpOutside("cannot clone key: " + err.Error())
+	}
+	if err := k.Set(jwk.KeyIDKey, kid); err != nil {
+		vpOutside("cannot set kid: " + err.Error())
+	}
+	return k
+}
+
 type vpSigner struct {
 	key *ecdsa.PrivateKey
 }
